@@ -280,6 +280,23 @@ pub fn gen_ops(cfg: &Cfg, double: bool, m: &Model, back_offered: bool, out: &mut
         }
     }
     if a & A_ITER_MUT != 0 {
+        // by-value consumers built on fold / try_fold
+        out.push(Op::IterMutForEach { writes: vec![] });
+        for &p in &cfg.prios {
+            out.push(Op::IterMutForEach { writes: vec![Some(p); n] });
+            for j in 0..n.min(6) {
+                let mut w = vec![None; n];
+                w[j] = Some(p);
+                out.push(Op::IterMutForEach { writes: w });
+                out.push(Op::IterMutFind { stop_at: j as u8, prio: p });
+            }
+        }
+        if n >= 2 {
+            // mirror all priorities (raises the low ones, lowers the high ones)
+            let lo = *cfg.prios.iter().min().unwrap() as i64;
+            let hi = *cfg.prios.iter().max().unwrap() as i64;
+            out.push(Op::IterMutForEach { writes: (0..n).map(|i| Some(if i % 2 == 0 { hi as i32 } else { lo as i32 })).collect() });
+        }
         let mut dirs: Vec<bool> = vec![false];
         if a & A_ITER_MUT_BACK != 0 && back_offered {
             dirs.push(true);
@@ -474,6 +491,16 @@ pub fn gen_ops(cfg: &Cfg, double: bool, m: &Model, back_offered: bool, out: &mut
     }
     if a & A_CLONE != 0 {
         out.push(Op::CloneSwap);
+        // clone_from an empty, a one-element and a full-universe queue (longer or equal), and a
+        // differently arranged one; all within the item universe, so the state space stays closed
+        if cfg.k <= 6 {
+            let p0 = cfg.prios[0];
+            let p1 = *cfg.prios.last().unwrap();
+            out.push(Op::CloneFrom(vec![]));
+            out.push(Op::CloneFrom(vec![(0, 0, p1)]));
+            out.push(Op::CloneFrom((0..cfg.k).map(|i| (i, 0, if i % 2 == 0 { p0 } else { p1 })).collect()));
+            out.push(Op::CloneFrom((0..cfg.k).rev().map(|i| (i, 0, if i % 2 == 0 { p1 } else { p0 })).collect()));
+        }
     }
     if a & A_CAPACITY != 0 {
         let mut amounts: Vec<usize> = vec![0, 1, 2, 5, 100];
@@ -508,6 +535,9 @@ pub fn op_name(op: &Op) -> &'static str {
         Op::Retain(..) => "retain",
         Op::RetainMut(..) => "retain_mut",
         Op::IterMut { .. } => "iter_mut",
+        Op::IterMutForEach { .. } => "iter_mut",
+        Op::IterMutFind { .. } => "iter_mut",
+        Op::CloneFrom(..) => "clone_from",
         Op::Extend(..) => "extend",
         Op::Append(..) => "append",
         Op::Clear => "clear",
@@ -558,7 +588,7 @@ pub fn apply<H: HB>(q: &AnyQ<H>, unordered: bool, m: &Model, op: &Op, universe: 
     if let Op::Convert = op {
         un = false; // conversion is specified to give a correctly ordered queue
     }
-    if let Op::IterMut { end: End::Drop, .. } = op {
+    if let Op::IterMut { end: End::Drop, .. } | Op::IterMutForEach { .. } | Op::IterMutFind { .. } = op {
         un = false; // documented: the heap is rebuilt when the iterator goes out of scope
     }
     if mm.len() <= 1 {
